@@ -341,6 +341,7 @@ class Emitter:
         self.n_twins = emit_twins(self)
         emit_dircast(self)
         emit_layout(self)
+        emit_fmt_triples(self)
         self._emit_pairs = lambda umods: emit_pairs_obligations(self, umods)
         # aggregate
         lines = ['-- GENERATED by emit_lean.py -- do not edit.']
@@ -558,6 +559,23 @@ def emit_pairs_obligations(em, umods):
                  % (fmt, ', '.join(names)))
         L += ['', 'end PhQVerif.Generated.Obl']
         em.write('Obl_C02pairs%d.lean' % fmt, '\n'.join(L) + '\n')
+
+
+def emit_fmt_triples(em):
+    """(float, double, long double) instantiations of every entry that has no unit argument."""
+    rows, mods = [], set()
+    for e in em.model:
+        m = e['meta']
+        if m['cls'].startswith('unit:') or m.get('unit') or m.get('family') or m['kind'] in ('hash', 'model-hash'):
+            continue
+        inst = e['instances'][0]
+        if not all(str(f) in inst['fmts'] for f in (32, 64, 80)):
+            continue
+        rows.append('(f32.%s, f64.%s, f80.%s)' % (ident(e['id']), ident(e['id']), ident(e['id'])))
+        mods.add(('M_' + m['cls'][6:]) if m['cls'].startswith('model:') else ('Q_' + m['cls']))
+    imports = ['PhQVerif.Core.Model'] + ['PhQVerif.Generated.%s' % x for x in sorted(mods)]
+    emit_list_with_obligation(em, 'FmtTriples', 'Entry × Entry × Entry', rows, imports, 'Chk.SameFormula',
+                              'SameFormula', chunk=300)
 
 
 def emit_dircast(em):
